@@ -185,11 +185,9 @@ def C11(tier):
                  bounds=dict(step='one level of the recursive walk from an arbitrary node: symbolic depth, key base, child pattern / leaf contents and destructor table; the recursive self-call is redirected to a recording stub by a text patch on the preprocessed copy (inductive step)'))
             for i in range(5)]
     jobs.append(ajob('fresh_node_clean', 'harness/C10_fresh.c', [], unwind=18, timeout=900, cfg=dict(real_tls_types=True), bounds=dict(memory='recycled descriptor pool and malloc chunk with arbitrary previous contents; real node type, byte-level')))
-    if tier == 'thorough':
-        # end-to-end with one symbolic key over all 1024 indices.  (Two keys, case-split on the root-level branch of each key into 16 sub-queries,
-        # ran out of memory at 6 GB per sub-query after ~40 min each when tried: not in the tier.)
-        jobs.append(ajob('dtor.k1', src, ['-DNK=1', '-DNPOOL=5', '-DLEAK=1', '-DGARBAGE=1'], unwind=18, timeout=7200, mem_gb=16,
-                         bounds=dict(keys='1 symbolic key over all 1024 indices, end to end (set, exit-time destructor walk, teardown); all heap nodes released')))
+    # thorough = quick for this property: the end-to-end queries of harness/C11_destructors.c (1 or 2 symbolic keys over all 1024 indices, set + exit-time
+    # walks in one query) gave no verdict when tried (2 keys in 16 sub-queries: out of memory at 6 GB each after ~40 min; 1 key: out of memory at 16 GB with the
+    # leak ledger, no verdict in 40 min without it); the compositional step queries above are the claim.
     return dict(jobs=jobs, assumptions=A_ASSUME + ['compositional argument: leaf step + internal step (recursive call replaced by a recording stub) + top call give the property for every subset of keys by induction on the tree depth; that set() files key k under the digits of k is C10 (tree harness)',
                                                  'tree nodes come from a typed static pool standing for real_malloc; the embedded pre-allocation pool is put into its valid state "exhausted"',
                                                  'mechanical type patches on the preprocessed copy: entries[1] struct hack gets its real extent; the anonymous union {children, entries} becomes a struct (the code never puns between the two views)',
@@ -206,8 +204,8 @@ def C10(tier):
                      bounds=dict(key_table='scaled to 16 cells (enumerator patch myth_tls_tree_depth 3 -> 0)', threads='T0: create, create; T1: create, create, delete, create')))
     if tier == 'thorough':
         # tree.k3 (3 stored keys): no verdict in 2 h, not in the tier
-        jobs += [ajob('tree.k2.garbage', 'harness/C10_tree.c', ['-DNK=2', '-DNPOOL=9', '-DGARBAGE=1'], unwind=18, timeout=5400, mem_gb=16, bounds=dict(keys='2 stored keys + 1 queried key; pool nodes hold arbitrary previous contents')),
-                 ajob('keyalloc.seq.a63', 'harness/C10_keyalloc_seq.c', ['-DKA_A=63', '-DKA_B=0'], unwind=6, timeout=900, cfg=KEYTAB64, bounds=dict(key_table='scaled to 64 cells (see keyalloc.seq.a5)', state='free list 63 -> 0')),
+        # tree.k2 with recycled-pool garbage: no verdict in 90 min, not in the tier
+        jobs += [ajob('keyalloc.seq.a63', 'harness/C10_keyalloc_seq.c', ['-DKA_A=63', '-DKA_B=0'], unwind=6, timeout=900, cfg=KEYTAB64, bounds=dict(key_table='scaled to 64 cells (see keyalloc.seq.a5)', state='free list 63 -> 0')),
                  ajob('keyalloc.seq.a1', 'harness/C10_keyalloc_seq.c', ['-DKA_A=1', '-DKA_B=2'], unwind=6, timeout=900, cfg=KEYTAB64, bounds=dict(key_table='scaled to 64 cells (see keyalloc.seq.a5)', state='free list 1 -> 2'))]
     return dict(jobs=jobs, assumptions=A_ASSUME + ['tree nodes come from typed static pools standing for real_malloc'],
                 functions=['myth_tls_tree_get', 'myth_tls_tree_set', 'myth_tls_tree_init', 'myth_tls_key_allocator_alloc', 'myth_tls_key_allocator_dealloc'])
@@ -393,6 +391,7 @@ def C18(tier):
                                  clock='arbitrary non-decreasing readings (increments < 2^40)', options='collapse_max_count, uncollapse_min, collapse_max symbolic; node_count_target = 0'))
             j.group = 'dr.e2e.p%d.o%d' % (prog, order); jobs.append(j)
     return dict(jobs=jobs, assumptions=A_ASSUME + ['inductive argument: leaf step (an interval\'s totals are its own length/kind) + closing step (a section or task gets exactly the serial-sum / max-over-created-children combination of its parts\' totals, whatever the contraction options do) give "totals = totals of the uncontracted sequence" for every well-nested execution by induction on nesting depth; the parts\' own totals are arbitrary (induction hypothesis) subject to t_inf <= t_1',
+                'mechanical type patches on the preprocessed copy: the anonymous union {child | {subgraphs, parent/active_section}} of struct dr_dag_node and the padding union of dr_worker_specific_state become structs (the code tells the views apart by info.kind and never reads one after writing the other); consequence: a defect that reads the wrong view would not be seen',
                 'dr_malloc/dr_free (scratch memory of the dr_free_dag traversal) are replaced by typed static pools; pool exhaustion is reported as an unwinding failure, never assumed away',
                 'shape of one step bounded: <= 3 parts per section (4 in three thorough shapes), sub-sections/created tasks either contracted or holding one leaf; which worker ran what is symbolic (worker ids -1..3)',
                 'whole-execution queries (dr.e2e.*): a serial simulator calls the real entry points for a fixed small program; dr_get_tsc is a stub (arbitrary non-decreasing clock); worker state comes from the real fixed-array lookup over a static array with pre-filled node free lists (running dry is reported as undecided); dr_free_dag is replaced by its effect on the graph there (the real traversal runs in the step queries); the oracle is computed from the simulator\'s own clock readings with the closed formula of the program\'s DAG',
